@@ -1,13 +1,144 @@
-(* GPLinDetProofs.v — the determinant identity behind the log-det term of the negative log
-   marginal likelihood (C08), over MathComp matrices on an arbitrary commutative ring.
-   It is linked to the list model of model/GPLin.v ONLY BY SHAPE (same statement about
-   L L^T for a lower-triangular L); no lemma transports it to list matrices. *)
+(* GPLinDetProofs.v — determinant of the list model (C08, log-det term of the likelihood).
+   [det_list M] is MathComp's determinant (Leibniz formula) of the matrix with the same entries
+   ([to_mx]); R is given its MathComp commutative-ring structure here (eqType from Req_EM_T, choiceType
+   from ClassicalEpsilon — this is where constructive_indefinite_description enters).  The transport
+   commutes with gram / transpose / triangularity / diagonal for square well-formed lists, hence
+   det (L L^T) = (prod L_ii)^2 for the LIST model's lower-triangular L and the likelihood theorem
+   holds without the determinant hypothesis. *)
 Set Warnings "-notation-overridden,-ambiguous-paths".
 From mathcomp Require Import all_ssreflect all_algebra.
+From Coq Require Import Reals ClassicalEpsilon FunctionalExtensionality.
+From Verif Require Import model.GPLin proofs.GPLinProofs.
 Import GRing.Theory.
-Open Scope ring_scope.
+Set Implicit Arguments.
+Unset Strict Implicit.
 
-(* is_trig_mx L : L i j = 0 whenever i < j (lower triangular) *)
+(* R as a MathComp commutative ring *)
+Definition Reqb (x y : R) : bool := if Req_EM_T x y then true else false.
+Lemma ReqP : Equality.axiom Reqb.
+Proof. move=> x y; rewrite /Reqb; case: (Req_EM_T x y) => h; by constructor. Qed.
+Definition R_eqMixin := EqMixin ReqP.
+Canonical R_eqType := Eval hnf in EqType R R_eqMixin.
+
+Definition Rfind (P : pred R) (n : nat) : option R :=
+  match excluded_middle_informative (exists x, P x) with
+  | left ex => Some (proj1_sig (constructive_indefinite_description _ ex))
+  | right _ => None
+  end.
+Lemma Rfind_some P n x : Rfind P n = Some x -> P x.
+Proof.
+  rewrite /Rfind; case: (excluded_middle_informative _) => // ex [] <-.
+  exact: (proj2_sig (constructive_indefinite_description _ ex)).
+Qed.
+Lemma Rfind_ex (P : pred R) : (exists x, P x) -> exists n, Rfind P n.
+Proof. move=> ex; exists 0%N; rewrite /Rfind; by case: (excluded_middle_informative _). Qed.
+Lemma Rfind_ext (P Q : pred R) : P =1 Q -> Rfind P =1 Rfind Q.
+Proof. move=> /functional_extensionality -> n; by []. Qed.
+Definition R_choiceMixin := Choice.Mixin Rfind_some Rfind_ex Rfind_ext.
+Canonical R_choiceType := Eval hnf in ChoiceType R R_choiceMixin.
+
+Lemma RplusA : associative Rplus. Proof. move=> x y z; by rewrite Rplus_assoc. Qed.
+Lemma RmultA : associative Rmult. Proof. move=> x y z; by rewrite Rmult_assoc. Qed.
+Definition R_zmodMixin := ZmodMixin RplusA Rplus_comm Rplus_0_l Rplus_opp_l.
+Canonical R_zmodType := Eval hnf in ZmodType R R_zmodMixin.
+Lemma R1_neq0 : (R1 != R0 :> R).
+Proof. apply/eqP. exact: R1_neq_R0. Qed.
+Definition R_ringMixin := RingMixin RmultA Rmult_1_l Rmult_1_r Rmult_plus_distr_r Rmult_plus_distr_l R1_neq0.
+Canonical R_ringType := Eval hnf in RingType R R_ringMixin.
+Canonical R_comRingType := Eval hnf in ComRingType R Rmult_comm.
+
+Local Open Scope ring_scope.
+
+(* the MathComp matrix with the same entries as a list matrix, and the determinant of a list matrix
+   (Leibniz formula of MathComp) *)
+Definition to_mx (n : nat) (M : list (list R)) : 'M[R]_n :=
+  \matrix_(i < n, j < n) List.nth (nat_of_ord j) (List.nth (nat_of_ord i) M Datatypes.nil) R0.
+Definition det_list (M : list (list R)) : R := \det (to_mx (List.length M) M).
+
+Lemma dot_sum n : forall a b : list R, List.length a = n -> List.length b = n ->
+  dot NumR a b = \sum_(k < n) (List.nth (nat_of_ord k) a R0 * List.nth (nat_of_ord k) b R0).
+Proof.
+  elim: n => [|n IH] [|x a] [|y b] //= Ha Hb.
+  - by rewrite big_ord0.
+  - rewrite big_ord_recl /=. congr (_ + _).
+    rewrite (IH a b); [|by case: Ha|by case: Hb]. by apply: eq_bigr => k _.
+Qed.
+
+Lemma square_row_length (L : list (list R)) i : Square L -> (i < List.length L)%coq_nat ->
+  List.length (List.nth i L Datatypes.nil) = List.length L.
+Proof.
+  move=> Hsq Hi. move: Hsq; rewrite /Square => /List.Forall_forall; apply. exact: List.nth_In.
+Qed.
+
+Lemma to_mx_gram (L : list (list R)) : Square L ->
+  to_mx (List.length L) (gram NumR L) = to_mx (List.length L) L *m (to_mx (List.length L) L)^T.
+Proof.
+  move=> Hsq. apply/matrixP => i j. rewrite !mxE.
+  have Hi : (i < List.length L)%coq_nat by apply/ltP.
+  have Hj : (j < List.length L)%coq_nat by apply/ltP.
+  rewrite /gram.
+  rewrite (@map_nth_lt _ _ (fun ri => List.map (fun rj => dot NumR ri rj) L) L i Datatypes.nil Datatypes.nil Hi).
+  rewrite (@map_nth_lt _ _ (fun rj => dot NumR (List.nth i L Datatypes.nil) rj) L j Datatypes.nil R0 Hj).
+  rewrite (@dot_sum (List.length L)); try exact: square_row_length.
+  apply: eq_bigr => k _. by rewrite !mxE.
+Qed.
+
+Lemma to_mx_trig (L : list (list R)) : LowerTri L -> is_trig_mx (to_mx (List.length L) L).
+Proof.
+  move=> Hlt. apply/is_trig_mxP => i j ltij. rewrite mxE.
+  have Hi : (i < List.length L)%coq_nat by apply/ltP.
+  case: (Hlt i Hi) => _; apply. exact/ltP.
+Qed.
+
+Lemma prod_nth (d : list R) : \prod_(i < List.length d) List.nth (nat_of_ord i) d R0 = prodR d.
+Proof.
+  elim: d => [|x d IH] /=; first by rewrite big_ord0.
+  rewrite big_ord_recl /=. congr (_ * _). by rewrite -IH.
+Qed.
+
+Lemma to_mx_diag (L : list (list R)) :
+  \prod_(i < List.length L) (to_mx (List.length L) L) i i = prodR (diag NumR L).
+Proof.
+  rewrite -prod_nth /diag.
+  have E : List.length (diag_from NumR 0 L) = List.length L by exact: diag_from_length.
+  rewrite E. apply: eq_bigr => i _. rewrite mxE.
+  have Hi : (i < List.length L)%coq_nat by apply/ltP.
+  by rewrite (diag_from_nth L 0 i Hi).
+Qed.
+
+(* det (L L^T) = (prod L_ii)^2 for the LIST model's lower-triangular L *)
+Lemma det_gram_list (L : list (list R)) : LowerTri L -> Square L ->
+  det_list (gram NumR L) = Rmult (prodR (diag NumR L)) (prodR (diag NumR L)).
+Proof.
+  move=> Hlt Hsq. rewrite /det_list gram_length to_mx_gram // det_mulmx det_tr.
+  by rewrite (det_trig (to_mx_trig Hlt)) to_mx_diag.
+Qed.
+
+(* the negative log marginal likelihood at full strength *)
+Local Close Scope ring_scope.
+Lemma nlml_dense_full (L : list (list R)) (p r alpha : list R) :
+  LowerTri L -> Square L ->
+  List.length p = List.length L -> List.length alpha = List.length L ->
+  mv NumR L p = r -> mv NumR (gram NumR L) alpha = r ->
+  nlml NumR L p =
+  Rmult (Rinv 2) (Rplus (Rplus (Rmult (INR (List.length L)) (ln (Rmult 2 PI))) (ln (det_list (gram NumR L))))
+                        (dot NumR r alpha)).
+Proof.
+  move=> Hlt Hsq Hp Ha HLp HAa.
+  exact: (@nlml_dense L p r alpha (det_list (gram NumR L)) Hlt Hsq Hp Ha HLp HAa (det_gram_list Hlt Hsq)).
+Qed.
+Local Open Scope ring_scope.
+Lemma det_list_22 (a b c d : R) :
+  det_list (Datatypes.cons (Datatypes.cons a (Datatypes.cons b Datatypes.nil))
+           (Datatypes.cons (Datatypes.cons c (Datatypes.cons d Datatypes.nil)) Datatypes.nil)) = Rminus (Rmult a d) (Rmult b c).
+Proof.
+  rewrite /det_list /= (expand_det_row _ ord0) !big_ord_recl big_ord0 /cofactor !det_mx11 !mxE /=.
+  rewrite /bump /= !addn0 !expr0 expr1.
+  by rewrite mul1r mulN1r addr0 mulrN.
+Qed.
+
+Local Open Scope ring_scope.
+(* the identity over any commutative ring (kept from the first wave) *)
 Lemma det_LLT (F : comRingType) (n : nat) (L : 'M[F]_n) :
   is_trig_mx L -> \det (L *m L^T) = (\prod_i L i i) ^+ 2.
 Proof. move=> Lt. by rewrite det_mulmx det_tr (det_trig Lt) expr2. Qed.
